@@ -6,7 +6,7 @@ import json, os, subprocess, sys, time
 from pathlib import Path
 wt, n, pids = Path(sys.argv[1]), sys.argv[2], sys.argv[3:]
 out = wt / "seed_out" / n
-env = dict(os.environ, PYTHONPATH=str(wt), PYTHONDONTWRITEBYTECODE="1")
+env = dict(os.environ, PYTHONPATH=str(wt), PYTHONDONTWRITEBYTECODE="1", VERIF_EVIDENCE_DIR="/tmp/txv_seed_evidence", VERIF_REPLAYS_DIR="/tmp/txv_seed_replays")
 def sh(cmd, **kw):
     return subprocess.run(cmd, cwd=wt, env=env, capture_output=True, text=True, **kw)
 sh(["git", "checkout", "--", "."])
